@@ -531,6 +531,10 @@ impl BigUint {
 			1 => Self::Small(u64::deserialize(read)?),
 			2 => {
 				let len = usize::deserialize(read)?;
+				if len == 0 {
+					// `Large` always holds at least one limb
+					return Err(FendError::DeserializationError);
+				}
 				let mut v = Vec::new();
 				for _ in 0..len {
 					v.push(u64::deserialize(read)?);
